@@ -23,9 +23,12 @@ Lemma group_modifier_breaks : breaks false "a + ignoring() group_left(x) b". Pro
 Lemma zero_range_breaks : breaks false "foo[0s499ms]".               Proof. witness. Qed.
 Lemma empty_selector_breaks : breaks false "{}".                     Proof. witness. Qed.
 
+Lemma pos_inf_breaks : breaks false "Inf ^ 2".                      Proof. witness. Qed.
+
 Lemma vector_offset_repaired : holds true "foo offset 5m".            Proof. witness_ok. Qed.
 Lemma subquery_repaired : holds true "rate(foo[5m])[10m:1m]".        Proof. witness_ok. Qed.
 Lemma offset_list_repaired : holds true "foo offset [1m, 2m]".       Proof. witness_ok. Qed.
 Lemma group_modifier_repaired : holds true "a + ignoring() group_left(x) b". Proof. witness_ok. Qed.
 Lemma zero_range_repaired : holds true "foo[0s499ms]".               Proof. witness_ok. Qed.
 Lemma empty_selector_repaired : holds true "{}".                     Proof. witness_ok. Qed.
+Lemma pos_inf_repaired : holds true "Inf ^ 2".                       Proof. witness_ok. Qed.
